@@ -27,7 +27,9 @@ type wireResp struct {
 	Digest string `json:"digest,omitempty"`
 }
 
-// one Read result of the response body: Err 0 = nil, 1 = io.EOF, 2 = another error
+// one Read result of the response body: Err 0 = nil, 1 = io.EOF, 2 = another error,
+// 3 = io.ErrUnexpectedEOF (what net/http's transport reports when the connection ends before
+// Content-Length bytes have arrived: the only way a real transport hands over a short body)
 type chunk struct {
 	Data []byte `json:"data,omitempty"`
 	Err  int    `json:"err,omitempty"`
@@ -78,6 +80,8 @@ func (s *scriptedBody) Read(p []byte) (int, error) {
 		return n, io.EOF
 	case 2:
 		return n, errInjected
+	case 3:
+		return n, io.ErrUnexpectedEOF
 	}
 	return n, nil
 }
@@ -312,6 +316,38 @@ func genReads(out *hx.Out, rnd *rand.Rand, scale int) {
 	type fault struct {
 		name  string
 		apply func(c *readCase, content []byte)
+		// every: one case per read kind on every run (the rest drawn), not kinds by luck
+		every bool
+	}
+	// the body stops n bytes early and the transport says so: io.ErrUnexpectedEOF, together with
+	// the last bytes or on a Read of its own
+	truncUEOF := func(n int, with int) func(c *readCase, content []byte) {
+		return func(c *readCase, content []byte) {
+			b := bodyOf(c)
+			k := n
+			if k < 0 {
+				k = 1 + rnd.Intn(1+len(b))
+			}
+			if k > len(b) {
+				k = len(b)
+			}
+			ch := partition(rnd, b[:len(b)-k])
+			w := with
+			if w < 0 {
+				w = rnd.Intn(2)
+			}
+			// partition ends in io.EOF, with the last bytes or alone
+			if last := len(ch) - 1; ch[last].Err == 1 && len(ch[last].Data) == 0 && last > 0 && w == 1 {
+				ch = ch[:last]
+				ch[last-1].Err = 3
+			} else if w == 0 && len(ch[last].Data) > 0 {
+				ch[last].Err = 0
+				ch = append(ch, chunk{Err: 3})
+			} else {
+				ch[last].Err = 3
+			}
+			c.Body = ch
+		}
 	}
 	pad := func(n int) func(c *readCase, content []byte) {
 		return func(c *readCase, content []byte) {
@@ -329,67 +365,72 @@ func genReads(out *hx.Out, rnd *rand.Rand, scale int) {
 	}
 	other := func() []byte { return contents[rnd.Intn(len(contents))] }
 	faults := []fault{
-		{"none", func(c *readCase, content []byte) {}},
-		{"none-eof-with-data", func(c *readCase, content []byte) { c.Body = []chunk{{Data: bodyOf(c), Err: 1}} }},
-		{"none-eof-alone", func(c *readCase, content []byte) { c.Body = []chunk{{Data: bodyOf(c)}, {Err: 1}} }},
-		{"body-flip", func(c *readCase, content []byte) {
+		{name: "none", apply: func(c *readCase, content []byte) {}},
+		{name: "none-eof-with-data", apply: func(c *readCase, content []byte) { c.Body = []chunk{{Data: bodyOf(c), Err: 1}} }},
+		{name: "none-eof-alone", apply: func(c *readCase, content []byte) { c.Body = []chunk{{Data: bodyOf(c)}, {Err: 1}} }},
+		{name: "body-flip", apply: func(c *readCase, content []byte) {
 			c.Body = partition(rnd, flip(bodyOf(c), rnd.Intn(1+len(bodyOf(c)))))
 		}},
-		{"body-other", func(c *readCase, content []byte) { c.Body = partition(rnd, other()) }},
-		{"body-pad-1", pad(1)},
-		{"body-pad-many", pad(2 + rnd.Intn(600))},
-		{"body-pad-1-eof-with-data", func(c *readCase, content []byte) {
+		{name: "body-other", apply: func(c *readCase, content []byte) { c.Body = partition(rnd, other()) }},
+		{name: "body-pad-1", apply: pad(1)},
+		{name: "body-pad-many", apply: pad(2 + rnd.Intn(600))},
+		{name: "body-pad-1-eof-with-data", apply: func(c *readCase, content []byte) {
 			c.Body = []chunk{{Data: append(append([]byte{}, bodyOf(c)...), 'x'), Err: 1}}
 		}},
-		{"body-pad-1-eof-alone", func(c *readCase, content []byte) {
+		{name: "body-pad-1-eof-alone", apply: func(c *readCase, content []byte) {
 			c.Body = []chunk{{Data: append(append([]byte{}, bodyOf(c)...), 'x')}, {Err: 1}}
 		}},
-		{"body-trunc-1", trunc(1)},
-		{"body-trunc-many", trunc(2 + rnd.Intn(600))},
-		{"body-empty", func(c *readCase, content []byte) { c.Body = []chunk{{Err: 1}} }},
-		{"body-error-midway", func(c *readCase, content []byte) {
+		{name: "body-trunc-1", apply: trunc(1)},
+		{name: "body-trunc-many", apply: trunc(2 + rnd.Intn(600))},
+		{name: "body-trunc-1-unexpected-eof", apply: truncUEOF(1, -1), every: true},
+		{name: "body-trunc-many-unexpected-eof", apply: truncUEOF(-1, -1), every: true},
+		{name: "body-trunc-unexpected-eof-with-data", apply: truncUEOF(-1, 1), every: true},
+		{name: "body-trunc-unexpected-eof-alone", apply: truncUEOF(-1, 0), every: true},
+		{name: "body-whole-then-unexpected-eof", apply: truncUEOF(0, -1), every: true},
+		{name: "body-empty", apply: func(c *readCase, content []byte) { c.Body = []chunk{{Err: 1}} }},
+		{name: "body-error-midway", apply: func(c *readCase, content []byte) {
 			b := bodyOf(c)
 			c.Body = []chunk{{Data: b[:len(b)/2]}, {Data: b[len(b)/2:], Err: 2}}
 		}},
-		{"body-error-at-end", func(c *readCase, content []byte) { c.Body = []chunk{{Data: bodyOf(c)}, {Err: 2}} }},
-		{"clen-plus-1", func(c *readCase, content []byte) { c.Resp.CLen++ }},
-		{"clen-minus-1", func(c *readCase, content []byte) {
+		{name: "body-error-at-end", apply: func(c *readCase, content []byte) { c.Body = []chunk{{Data: bodyOf(c)}, {Err: 2}} }},
+		{name: "clen-plus-1", apply: func(c *readCase, content []byte) { c.Resp.CLen++ }},
+		{name: "clen-minus-1", apply: func(c *readCase, content []byte) {
 			if c.Resp.CLen > 0 {
 				c.Resp.CLen--
 			}
 		}},
-		{"clen-zero", func(c *readCase, content []byte) { c.Resp.CLen = 0 }},
-		{"clen-unknown", func(c *readCase, content []byte) { c.Resp.CLen = -1 }},
-		{"digest-other", func(c *readCase, content []byte) { c.Resp.Digest = memsim.Sha(append([]byte("x"), content...)) }},
-		{"digest-sha512-of-content", func(c *readCase, content []byte) { c.Resp.Digest = sha512Of(bodyOf(c)) }},
-		{"digest-sha512-other", func(c *readCase, content []byte) { c.Resp.Digest = sha512Of(append([]byte("x"), content...)) }},
-		{"digest-malformed", func(c *readCase, content []byte) {
+		{name: "clen-zero", apply: func(c *readCase, content []byte) { c.Resp.CLen = 0 }},
+		{name: "clen-unknown", apply: func(c *readCase, content []byte) { c.Resp.CLen = -1 }},
+		{name: "digest-other", apply: func(c *readCase, content []byte) { c.Resp.Digest = memsim.Sha(append([]byte("x"), content...)) }},
+		{name: "digest-sha512-of-content", apply: func(c *readCase, content []byte) { c.Resp.Digest = sha512Of(bodyOf(c)) }},
+		{name: "digest-sha512-other", apply: func(c *readCase, content []byte) { c.Resp.Digest = sha512Of(append([]byte("x"), content...)) }},
+		{name: "digest-malformed", apply: func(c *readCase, content []byte) {
 			c.Resp.Digest = []string{"bogus", "sha256:abc", "sha256:" + fmt.Sprintf("%064d", 0)[:63] + "Z", "md5:d41d8cd98f00b204e9800998ecf8427e"}[rnd.Intn(4)]
 		}},
-		{"digest-absent", func(c *readCase, content []byte) { c.Resp.Digest = "" }},
-		{"digest-absent-body-flip", func(c *readCase, content []byte) {
+		{name: "digest-absent", apply: func(c *readCase, content []byte) { c.Resp.Digest = "" }},
+		{name: "digest-absent-body-flip", apply: func(c *readCase, content []byte) {
 			c.Resp.Digest = ""
 			c.Body = partition(rnd, flip(bodyOf(c), rnd.Intn(1+len(bodyOf(c)))))
 		}},
-		{"digest-absent-body-pad", func(c *readCase, content []byte) {
+		{name: "digest-absent-body-pad", apply: func(c *readCase, content []byte) {
 			c.Resp.Digest = ""
 			c.Body = partition(rnd, append(append([]byte{}, bodyOf(c)...), 'x'))
 		}},
-		{"digest-absent-body-trunc", func(c *readCase, content []byte) {
+		{name: "digest-absent-body-trunc", apply: func(c *readCase, content []byte) {
 			c.Resp.Digest = ""
 			b := bodyOf(c)
 			if len(b) > 0 {
 				c.Body = partition(rnd, b[:len(b)-1])
 			}
 		}},
-		{"ctype-absent", func(c *readCase, content []byte) { c.Resp.CType = "" }},
-		{"status", func(c *readCase, content []byte) { c.Resp.Status = []int{404, 500, 206, 204, 201, 200}[rnd.Intn(6)] }},
-		{"crange-total-small", func(c *readCase, content []byte) {
+		{name: "ctype-absent", apply: func(c *readCase, content []byte) { c.Resp.CType = "" }},
+		{name: "status", apply: func(c *readCase, content []byte) { c.Resp.Status = []int{404, 500, 206, 204, 201, 200}[rnd.Intn(6)] }},
+		{name: "crange-total-small", apply: func(c *readCase, content []byte) {
 			if c.Kind == 3 {
 				c.Resp.CRange = fmt.Sprintf("bytes %d-%d/%d", c.O0, c.O0+int64(len(bodyOf(c)))-1, rnd.Intn(1+len(bodyOf(c))))
 			}
 		}},
-		{"crange-malformed", func(c *readCase, content []byte) {
+		{name: "crange-malformed", apply: func(c *readCase, content []byte) {
 			if c.Kind == 3 {
 				c.Resp.CRange = []string{"", "bytes 0-4", "bytes 0-4/x", "bytes 0-4/", "0-4/-5", "bytes 0-4/5/6", "bytes 0-4/99999999999999999999"}[rnd.Intn(7)]
 			}
@@ -403,6 +444,9 @@ func genReads(out *hx.Out, rnd *rand.Rand, scale int) {
 		for i := 0; i <= perFault; i++ {
 			content := contents[rnd.Intn(len(contents))]
 			kind := rnd.Intn(4)
+			if f.every && i < 4 {
+				kind = i
+			}
 			whole := i == perFault
 			if whole {
 				kind = 3
